@@ -85,6 +85,18 @@ let spec_check n (progs : aop list array) rets final =
    | _ -> ());
   !err
 
+(* coverage of the model's branches (the events counted here were compared with the implementation's) *)
+let extra : (string, int) Hashtbl.t = Hashtbl.create 32
+let bump k = Hashtbl.replace extra k (1 + try Hashtbl.find extra k with Not_found -> 0)
+let count_events n es =
+  List.iter (function
+    | EAcc (site, _, _, k, _, _, _, _, ok) ->
+      let s = int_of_n site in
+      bump (Printf.sprintf "site_%d" s);
+      if k = KCas then bump (Printf.sprintf "site_%d_%s" s (if ok then "ok" else "fail"));
+      if k = KCell then bump (Printf.sprintf "cell_copy_size_%d" n)
+    | ERet _ -> ()) es
+
 let mk_sys toks =
   match toks with
   | size :: prog :: _ ->
@@ -100,7 +112,7 @@ let mk_sys toks =
       let rec go () = match sl_step1 (nat_of_int t) !c with
         | None -> None
         | Some (c', []) -> c := c'; go ()
-        | Some (c', es) -> c := c'; Some es in go () in
+        | Some (c', es) -> c := c'; count_events n es; Some es in go () in
     let finished t =
       let rec go cc = match sl_step1 (nat_of_int t) cc with
         | None -> true
@@ -115,4 +127,5 @@ let mk_sys toks =
   | _ -> failwith "unknown case header"
 
 let () =
-  run mk_sys (fun toks -> String.concat " " toks)
+  run mk_sys (fun toks -> String.concat " " toks);
+  Hashtbl.iter (fun k v -> Printf.printf "EXTRA %s %d\n" k v) extra
